@@ -14,10 +14,12 @@ use serde_json::{Value, json};
 const PATHS: [&str; 11] = ["time", "strings", "math/rand", "crypto/rand", "gopkg.in/yaml.v3", "github.com/a-b/c-d", "example.com/x/v2", "example.com/own/fmt", "x/a/b", "x_a/b", "lib/go"];
 
 /// what the program declares for the package and how it uses it
-const USES: [&str; 11] = [
+const USES: [&str; 14] = [
     "fn-called", "fn-called-in-closure", "fn-called-discarded", "fn-only-in-unused-fn", "fn-declared-never-called", "type-and-fn-called", "type-declared-only", "type-in-signature-only",
     // a foreign function declared `-> unit` is a Go function without a result
     "unit-fn-as-statement", "unit-fn-result-bound", "unit-fn-as-function-result",
+    // a foreign function used as a value: it is named by its Go name, and its package stays imported
+    "fn-as-argument", "fn-bound-to-a-local", "fn-in-a-tuple",
 ];
 
 fn program(paths: &[&str], usage: &str, placement: &str) -> String {
@@ -44,6 +46,18 @@ fn program(paths: &[&str], usage: &str, placement: &str) -> String {
             }
             "fn-declared-never-called" => {
                 decls.push_str(&format!("extern \"go\" \"{}\" \"Do\" do{}(n: int32) -> int32\n", p, k));
+            }
+            "fn-as-argument" => {
+                decls.push_str(&format!("extern \"go\" \"{}\" \"Do\" do{k}(n: int32) -> int32\nfn apply{k}(f: (int32) -> int32, x: int32) -> int32 {{ f(x) }}\n", p, k = k));
+                main.push_str(&format!("    string_println(int32_to_string({q}apply{k}({q}do{k}, 1)));\n", k = k, q = q));
+            }
+            "fn-bound-to-a-local" => {
+                decls.push_str(&format!("extern \"go\" \"{}\" \"Do\" do{}(n: int32) -> int32\n", p, k));
+                main.push_str(&format!("    let f{k} = {q}do{k};\n    string_println(int32_to_string(f{k}(1)));\n", k = k, q = q));
+            }
+            "fn-in-a-tuple" => {
+                decls.push_str(&format!("extern \"go\" \"{}\" \"Do\" do{}(n: int32) -> int32\n", p, k));
+                main.push_str(&format!("    let t{k} = ({q}do{k}, 1);\n    let g{k}: (int32) -> int32 = t{k}.0;\n    string_println(int32_to_string(g{k}(t{k}.1)));\n", k = k, q = q));
             }
             "unit-fn-as-statement" => {
                 decls.push_str(&format!("extern \"go\" \"{}\" \"Do\" do{}() -> unit\n", p, k));
